@@ -3,6 +3,7 @@ use {super::*, updater::BlockData};
 #[derive(Debug, PartialEq)]
 pub(crate) enum Error {
   Recoverable { height: u32, depth: u32 },
+  Uncommitted { height: u32 },
   Unrecoverable,
 }
 
@@ -11,6 +12,9 @@ impl Display for Error {
     match self {
       Self::Recoverable { height, depth } => {
         write!(f, "{depth} block deep reorg detected at height {height}")
+      }
+      Self::Uncommitted { height } => {
+        write!(f, "reorg among uncommitted blocks at height {height}")
       }
       Self::Unrecoverable => write!(f, "unrecoverable reorg detected"),
     }
